@@ -102,6 +102,10 @@ def run_reset(chk):
 def replay(body):
     r = body["replay"]
     hb, _ = vlib.build_harness("h_real", "plain")
+    if r["case"].startswith("timeo"):
+        out, rc, err = vlib.run_cases(hb, [r["case"]], timeout=120)
+        print("events: %s\nsocket timeouts read back (rcv/snd per connection): %s\nrecorded: %s" % (r["case"], out[:1], r.get("result")))
+        return 1
     if r["case"].startswith("reset"):
         bad = 0
         for i in range(3):
